@@ -11,6 +11,7 @@ import (
 	"os"
 	"os/exec"
 	"reflect"
+	"regexp"
 	"strings"
 
 	"raven/internal/db"
@@ -188,6 +189,41 @@ func main() {
 		}
 		it.fetch = a
 		os.WriteFile(fmt.Sprintf("%s/%05d.eml", emlDir, idx), []byte(a), 0644)
+	}
+	// ---- the strict reader: the octet-level reader of Model/Mime (Props.C02.fetched_text_reads_back: delimiters are
+	// CRLF "--" boundary and nothing else, as RFC 2046 has them and as mime/multipart and the server's own BODYSTRUCTURE code
+	// read them) finds in the fetched text the part tree that was submitted. The lenient reader below takes any line that
+	// begins with the delimiter, whatever ended the line before it. ----
+	{
+		var ops []string
+		var which []*item
+		for _, it := range items {
+			if it.fetch != "" && it.tree.Multi {
+				ops = append(ops, "mm.observe "+hx.H(it.fetch))
+				which = append(which, it)
+			}
+		}
+		obs, err := hx.RunModel(o.Driver, ops)
+		if err != nil {
+			rep.Violate("broken-correspondence", "driver", err.Error(), nil)
+			rep.Finish()
+		}
+		nstrict := 0
+		for i, it := range which {
+			f := strings.Fields(obs[i])
+			if len(f) < 4 || f[0] != "ok" {
+				rep.Violate("impl-violation", "tree (strict reader, Props.C02.fetched_text_reads_back)", fmt.Sprintf("message %s (via %s): a reader that takes CRLF \"--\" boundary for a delimiter cannot take the fetched text apart", it.token, it.via), []string{"msg " + hx.H(it.msg)})
+				continue
+			}
+			got, want := strictShape(strings.TrimPrefix(f[3], "shape=")), shapeOfTree(it.tree)
+			rep.Hit("strict-reader:" + f[1])
+			if got != want {
+				nstrict++
+				if nstrict <= 2 {
+					rep.Violate("impl-violation", "tree (strict reader, Props.C02.fetched_text_reads_back)", fmt.Sprintf("message %s (via %s): a reader that takes CRLF \"--\" boundary for a delimiter finds the parts %s in the fetched text, submitted were %s", it.token, it.via, got, want), []string{"msg " + hx.H(it.msg)})
+				}
+			}
+		}
 	}
 	// ---- independent reader ----
 	py := "python3"
@@ -679,4 +715,28 @@ func probeCrossEncoding(rep *hx.Report, w *world.World) {
 		}
 	}
 	rep.Hit("probe:C02-F1")
+}
+
+func shapeOfTree(n *mimegen.Node) string {
+	if !n.Multi {
+		return "L"
+	}
+	var cs []string
+	for _, c := range n.Children {
+		cs = append(cs, shapeOfTree(c))
+	}
+	return "(" + strings.Join(cs, " ") + ")"
+}
+
+var reStrictLB = regexp.MustCompile(`[LB][0-9-]+`)
+
+// strictShape: the digest of Model/Mime.observe with sizes and boundary numbers dropped
+func strictShape(d string) string {
+	d = strings.ReplaceAll(d, ",", " ")
+	return reStrictLB.ReplaceAllStringFunc(d, func(m string) string {
+		if m[0] == 'L' {
+			return "L"
+		}
+		return ""
+	})
 }
